@@ -25,6 +25,8 @@ FINISH = dict(
     trusted=['segyio', 'numpy', 'TLC'])
 
 MODES = ('heuristic', 'thorough', 'exhaustive', 'strip')
+SET3D = [(16, None), (32, (8, 8, 16)), (32, (16, 16, 4))]
+SET2D = [(16, None), (8, (1, 4, -1)), (32, (1, 8, 128))]
 _K = [None]
 
 
@@ -131,12 +133,12 @@ def build_headers(case):
     return H, kind, mask
 
 
-def _convert_and_observe(sgy, sgz, mode, truth, kind, mask, n):
+def _convert_and_observe(sgy, sgz, mode, truth, kind, mask, n, setting=(16, None)):
     """-> observation dict for one conversion"""
     from seismic_zfp.read import SgzReader
     import seismic_zfp
     obs = {}
-    writers.segy_to_sgz(sgy, sgz, 16, None, header_detection=mode)
+    writers.segy_to_sgz(sgy, sgz, setting[0], tuple(setting[1]) if setting[1] else None, header_detection=mode)
     with open(sgz, 'rb') as f:
         hdr = f.read(8192)
     table = sgzfile.parse_table(hdr)
@@ -223,7 +225,7 @@ def _segy_worker(item):
         for mode in case['modes']:
             sgz = os.path.join(d, f'h{ci}-{mode}.sgz')
             try:
-                out['modes'][mode] = _convert_and_observe(sgy, sgz, mode, truth, kind, mask, n)
+                out['modes'][mode] = _convert_and_observe(sgy, sgz, mode, truth, kind, mask, n, case.get('setting') or (16, None))
             except BaseException as e:
                 if isinstance(e, (KeyboardInterrupt, SystemExit, MemoryError)):
                     raise
@@ -345,8 +347,14 @@ def plan(run):
     for k, g in enumerate(big if quick else big * 3):
         kind = GEOMS[g][0]
         key, mat = chosen[int(rng.integers(len(chosen)))]
+        # the headers are captured plane set by plane set: block heights 4 / 8 / 16 (and 2-D trace groups of 4 / 8 / 16)
+        st = (SET2D if kind.startswith('2d') else SET3D)[k % 3]
         cases.append({'geom': g, 'embed': k % len(EMBED), 'vmap': k % 4, 'bg': ('ramp', 'mix')[k % 2], 'mat': mat, 'onemid': False,
-                      'modes': [m for m in MODES if not (kind == 'irr' and m == 'strip')], 'cls': list(key[0])})
+                      'modes': [m for m in MODES if not (kind == 'irr' and m == 'strip')], 'cls': list(key[0]), 'setting': st})
+        if quick:       # and the same source under the next setting
+            st2 = (SET2D if kind.startswith('2d') else SET3D)[(k + 1) % 3]
+            cases.append({'geom': g, 'embed': (k + 3) % len(EMBED), 'vmap': (k + 1) % 4, 'bg': 'mix', 'mat': mat, 'onemid': False,
+                          'modes': ['thorough', 'heuristic'], 'cls': list(key[0]), 'setting': st2})
     # every embedding with a word whose values differ by a tiny relative amount only (equal under a float tolerance, not as integers)
     for e in range(len(EMBED)):
         for j, pat in enumerate(([1, 2, 1], [1, 1, 2], [2, 1, 1], [2, 2, 1])):
@@ -373,6 +381,8 @@ def plan(run):
 
 def judge_segy(run, ci, case, res, ev):
     base = {k: case[k] for k in ('geom', 'embed', 'vmap', 'bg', 'mat', 'onemid')}
+    if case.get('setting'):
+        base['setting'] = [case['setting'][0], list(case['setting'][1]) if case['setting'][1] else None]
     if 'error' in res:
         run.machinery(f'C04 case {base}: {res["error"]}')
         return
@@ -463,7 +473,8 @@ def replay(run, rep):
         run.check(not r['bad_tf'], 'C04.tracefield-array[numpy]', c, r['bad_tf'][:8], None)
         return
     cases, _ = plan(run)
-    ci = [i for i, x in enumerate(cases) if all(x[k] == c[k] for k in ('geom', 'embed', 'vmap', 'bg', 'mat', 'onemid'))]
+    ci = [i for i, x in enumerate(cases) if all(x[k] == c[k] for k in ('geom', 'embed', 'vmap', 'bg', 'mat', 'onemid'))
+          and [x.get('setting', (16, None))[0], list(x.get('setting', (16, None))[1]) if x.get('setting', (16, None))[1] else None] == c.get('setting', [16, None])]
     case = dict(cases[ci[0]]) if ci else dict(c, cls=['v'], modes=[c['mode']])
     case['modes'] = [c['mode']]
     r = _segy_worker((ci[0] if ci else 0, case))
